@@ -481,6 +481,9 @@ impl Ctx {
                     let mut runner = TestRunner::new(cfg);
                     let st = RefCell::new(Stats::default());
                     let failed = RefCell::new(false);
+                    // the failure as first observed (kept in case the shrunk case does not fail when re-run alone:
+                    // a failure that depends on what ran before it on the thread is reported as it was seen)
+                    let first_failure: RefCell<Option<(String, Value, Value)>> = RefCell::new(None);
                     let res = runner.run(strategy, |v| {
                         if stop.load(Ordering::Relaxed) && !*failed.borrow() {
                             // another shard already found a violation: finish quickly
@@ -497,8 +500,9 @@ impl Ctx {
                         let mut stm = st.borrow_mut();
                         match self.record(&mut stm, sub, rep, || to_json(&v)) {
                             Ok(()) => Ok(()),
-                            Err((sig, _)) => {
+                            Err((sig, detail)) => {
                                 *failed.borrow_mut() = true;
+                                *first_failure.borrow_mut() = Some((sig.clone(), detail, to_json(&v)));
                                 stop.store(true, Ordering::Relaxed);
                                 Err(TestCaseError::fail(sig))
                             }
@@ -509,11 +513,13 @@ impl Ctx {
                         Ok(()) => {}
                         Err(TestError::Fail(_, v)) => {
                             let rep = f(&v);
-                            let (sig, detail) = match rep.verdict {
-                                Verdict::Fail { sig, detail } => (sig, detail),
-                                _ => ("unstable-failure".to_string(), json!("shrunk case passes on re-run")),
-                            };
-                            self.add_violation(sub, &sig, to_json(&v), detail);
+                            match rep.verdict {
+                                Verdict::Fail { sig, detail } => self.add_violation(sub, &sig, to_json(&v), detail),
+                                _ => match first_failure.borrow_mut().take() {
+                                    Some((sig, detail, case)) => self.add_violation(sub, &sig, case, detail),
+                                    None => self.add_violation(sub, "unstable-failure", to_json(&v), json!("shrunk case passes on re-run")),
+                                },
+                            }
                         }
                         Err(TestError::Abort(r)) => {
                             self.inconclusive.lock().unwrap().push(format!("{}: proptest aborted: {}", sub, r));
